@@ -272,7 +272,16 @@ class Discharger:
         else:
             self.arity_ok = c08.arity_rule(sub, fb, ap, asp, bpa)
         # chokepoint: builtin bodies only invoked from BuiltinProcedureBody::apply <- apply_procedure
-        self.choke_ok = all(f.name == ap.name for f, b, t in fb.call_sites(lambda t: callee(t) in (asp.name, bpa.name)))
+        callers_ = fb.callers("lib")
+
+        def _only_from_apply(nm, depth=4):
+            # apply_procedure itself, or a helper all of whose callers are (a function extracted from it)
+            nm = nm.split("::{closure")[0]
+            if nm == ap.name:
+                return True
+            cs = {x.split("::{closure")[0] for x in callers_.get(nm, ())} - {nm}
+            return depth > 0 and bool(cs) and all(_only_from_apply(x, depth - 1) for x in cs)
+        self.choke_ok = all(_only_from_apply(f.name) for f, b, t in fb.call_sites(lambda t: callee(t) in (asp.name, bpa.name)))
         ctx.extra_cov["arity_precondition"] = self.arity_ok and self.choke_ok
         self.counts = {}
         # functions that may (transitively, over the over-approximated call graph) take a RefCell borrow: holding a guard
